@@ -631,6 +631,34 @@ func TestC20(t *testing.T) {
 		})
 		ls.check("client log (password change)", lb.Bytes())
 		cl4.Destroy()
+		// ... and password services that fail in other ways: nobody listens, the answer is not a reply at all, the
+		// answer is cut short, none is configured
+		kpGarbage := startFuncKDC(func(req []byte) []byte { return []byte("this is not a kpasswd reply") })
+		kpShort := startFuncKDC(func(req []byte) []byte { return []byte{0, 9, 0, 1, 0, 4} })
+		closedPort, cl0, cu0 := reservePort()
+		cl0.Close()
+		cu0.Close()
+		for _, f := range []struct {
+			name string
+			line string
+		}{{"nobody listens", fmt.Sprintf("  kpasswd_server = 127.0.0.1:%d\n", closedPort)}, {"garbage answer", fmt.Sprintf("  kpasswd_server = 127.0.0.1:%d\n", kpGarbage.port)},
+			{"short answer", fmt.Sprintf("  kpasswd_server = 127.0.0.1:%d\n", kpShort.port)}, {"none configured", ""}} {
+			confF := fmt.Sprintf("[libdefaults]\n default_realm = %s\n dns_lookup_kdc = false\n udp_preference_limit = 1\n noaddresses = true\n[realms]\n %s = {\n  kdc = 127.0.0.1:%d\n%s }\n", c09Realm, c09Realm, kdc.port, f.line)
+			cfgF, cerr := config.NewFromString(confF)
+			if cerr != nil {
+				continue
+			}
+			var lbF bytes.Buffer
+			clF := client.NewWithPassword(c09User, c09Realm, clientPassword, cfgF, client.DisablePAFXFAST(true), client.Logger(log.New(&lbF, "", 0)))
+			Protect(func() {
+				_, err := clF.ChangePasswd(newPw)
+				ls.err("Client.ChangePasswd(password service: "+f.name+")", err)
+			})
+			ls.check("client log (password change, password service: "+f.name+")", lbF.Bytes())
+			clF.Destroy()
+		}
+		kpGarbage.close()
+		kpShort.close()
 		kdc.close()
 		kp.close()
 	}
